@@ -40,6 +40,19 @@ def unit_text(e) -> str:
     return s
 
 
+def unit_name(n):
+    """canonical text of an astropy unit expression in the value graph"""
+    if n.op == "Ext" and n.attr.startswith("astropy.units."):
+        return n.attr.split(".")[-1]
+    if n.op == "BinOp" and n.attr == "Pow" and n.args[1].op == "Const":
+        b = unit_name(n.args[0])
+        return f"{b}**{n.args[1].attr}" if b else None
+    if n.op == "BinOp" and n.attr in ("Mult", "Div"):
+        a, b = unit_name(n.args[0]), unit_name(n.args[1])
+        return f"{a}{'*' if n.attr == 'Mult' else '/'}{b}" if a and b else None
+    return None
+
+
 def run(ck, ctx):
     ck.explanation = EXPLANATION
     I = ctx.interp()
@@ -49,6 +62,53 @@ def run(ck, ctx):
         raise AnalysisError("config schema not readable")
     mod = I.module(CONFIG_MOD)
 
+    I.watch_calls.add("parse_units")
+    _vmemo, _smemo = {}, {}
+
+    def validator_unit(fi, m):
+        """[] if the validator does not convert units, else [(returns the conversion of its own argument, unit
+        name, text)] - decided on the value graph, however the body is spelled"""
+        if id(fi) in _vmemo:
+            return _vmemo[id(fi)]
+        x = I.input("x")
+        log0 = len(I.call_log)
+        try:
+            r = I.run(I.func_node(fi), [I.class_node(m.ci), x])
+        except Exception:
+            r = None
+        calls = [c for c in I.call_log[log0:] if c[0].qualname == "parse_units"]
+        out = []
+        if calls:
+            c = calls[0]
+            val, unit = c[2].get("value"), c[2].get("unit")
+            U = unit_name(unit) if unit is not None else None
+            ok = len(calls) == 1 and r is not None and r.value is not None and val is x and \
+                (r.value is c[3] or g.same(r.value, c[3]))
+            out = [(ok, U, g.show(r.value, 3) if r is not None and r.value is not None else "no value")]
+        _vmemo[id(fi)] = out
+        return out
+
+    def serializer_units(sf, m):
+        """(emits str(Quantity(x, Us)[.to(V)]), Us, V, text) from the serializer's returned value"""
+        if id(sf) in _smemo:
+            return _smemo[id(sf)]
+        x = I.input("x")
+        slf = I.input("self", kind="obj")
+        r = I.run(I.func_node(sf), [slf, x])
+        v = r.value
+        ok, Us, V = False, None, None
+        if v is not None and is_ext_call(v, "builtins.str") and len(v.args) == 2:
+            q = v.args[1]
+            if q.op == "MCall" and q.attr[0] == "to" and len(q.args) == 2:
+                V = unit_name(q.args[1])
+                q = q.args[0]
+            if is_ext_call(q, "astropy.units.Quantity") and len(q.args) == 3 and q.args[1] is x:
+                Us = unit_name(q.args[2])
+                ok = Us is not None
+        out = (ok, Us, V, g.show(v, 4) if v is not None else "no value")
+        _smemo[id(sf)] = out
+        return out
+
     # ---------------------------------------------------------------- R15.1 pairing
     def r151():
         n = 0
@@ -56,8 +116,7 @@ def run(ck, ctx):
         for m in sch.models.values():
             vmap, smap = {}, {}
             for names, mode, fi, deco in m.validators:
-                calls = [c for c in ast.walk(fi.node) if isinstance(c, ast.Call) and
-                         census.dotted(c.func).split(".")[-1] == "parse_units"]
+                calls = validator_unit(fi, m)
                 for nm in names:
                     if nm in vmap and vmap[nm][2] and not calls:
                         continue         # keep the unit validator; other validators of the field are not its pair
@@ -89,14 +148,12 @@ def run(ck, ctx):
                     mode, fi, calls = vmap[nm]
                     ck.ob("R15.1", f"{label}: validator runs before type coercion (mode='before')", mode == "before",
                           (mod.relpath, fi.node.lineno, 0), fi.qualname, f"mode={mode!r}")
-                    c = calls[0]
-                    ok = len(c.args) == 2 and isinstance(fi.node.body[-1], ast.Return) and fi.node.body[-1].value is c
-                    U = unit_text(c.args[1]) if len(c.args) == 2 else None
+                    ok, U, shown = calls[0]
                     ck.ob("R15.1", f"{label}: validator returns parse_units(x, U)", ok,
-                          (mod.relpath, fi.node.lineno, 0), fi.qualname, ast.unparse(fi.node.body[-1])[:100])
+                          (mod.relpath, fi.node.lineno, 0), fi.qualname, shown)
                     want = CANON.get(nm)
                     ck.ob("R15.1", f"{label}: stored in the canonical unit {want}", want is not None and U == want,
-                          (mod.relpath, c.lineno, 0), fi.qualname, f"validator unit {U}",
+                          (mod.relpath, fi.node.lineno, 0), fi.qualname, f"validator unit {U}",
                           construct=f"{label}: canonical unit")
                 if nm not in smap:
                     ck.ob("R15.1", f"{label}: has a unit-labelled serializer", False, site, m.qualname,
@@ -104,22 +161,9 @@ def run(ck, ctx):
                           construct=f"{label}: no serializer")
                     continue
                 sf = smap[nm]
-                ret = sf.node.body[-1]
-                shape_ok = isinstance(ret, ast.Return) and isinstance(ret.value, ast.Call) and \
-                    ast.unparse(ret.value.func) == "str" and len(ret.value.args) == 1
-                q = ret.value.args[0] if shape_ok else None
-                V = None
-                if shape_ok and isinstance(q, ast.Call) and isinstance(q.func, ast.Attribute) and q.func.attr == "to":
-                    V = unit_text(q.args[0]) if q.args else None
-                    q = q.func.value
-                Us = None
-                if shape_ok and isinstance(q, ast.Call) and census.dotted(q.func).split(".")[-1] == "Quantity" and \
-                        len(q.args) == 2:
-                    Us = unit_text(q.args[1])
-                else:
-                    shape_ok = False
+                shape_ok, Us, V, shown_s = serializer_units(sf, m)
                 ck.ob("R15.1", f"{label}: serializer emits str(Quantity(x, U)[.to(V)]) - value with its unit label",
-                      shape_ok, (mod.relpath, sf.node.lineno, 0), sf.qualname, ast.unparse(ret)[:120],
+                      shape_ok, (mod.relpath, sf.node.lineno, 0), sf.qualname, shown_s,
                       construct=f"{label}: serializer shape")
                 if shape_ok:
                     ck.ob("R15.1", f"{label}: serializer and validator use the same unit", U is None or Us == U,
@@ -304,23 +348,41 @@ def run(ck, ctx):
         cf = mod.functions.get("config_from_toml")
         if ct is None or cf is None:
             raise AnalysisError("create_toml / config_from_toml not found")
-        dumps = [n for n in ast.walk(ct.node) if isinstance(n, ast.Call) and census.dotted(n.func).endswith("dump")
-                 and not census.dotted(n.func).endswith("model_dump")]
-        okw = len(dumps) == 1 and isinstance(dumps[0].args[0], ast.Call) and \
-            census.dotted(dumps[0].args[0].func).endswith(".model_dump") and not dumps[0].args[0].args and \
-            not dumps[0].args[0].keywords
+        # value graph of both functions
+        def arg_nodes(fi):
+            return {a_.arg: I.input(a_.arg, kind="obj" if a_.arg == "c" else None) for a_ in fi.node.args.args}
+        wa = arg_nodes(ct)
+        rw = I.run(I.func_node(ct), [wa[a_.arg] for a_ in ct.node.args.args])
+        dumps = [e for e in rw.effects if e.kind == "io-write" and (e.data.get("callee") or "").endswith(".dump")]
+        okw = False
+        okb = False
+        if len(dumps) == 1:
+            pos, kws = call_args(dumps[0].node)
+            md = pos[0] if pos else None
+            okw = md is not None and md.op == "MCall" and md.attr[0] == "model_dump" and len(md.args) == 1 and \
+                md.args[0] is wa.get("c") and not kws
+            fh = pos[1] if len(pos) > 1 else None
+            if fh is not None and is_ext_call(fh, "builtins.open"):
+                fpos, fkw = call_args(fh)
+                mode = fpos[1] if len(fpos) > 1 else fkw.get("mode")
+                okb = fpos[0] is wa.get("filename") and mode is not None and mode.op == "Const" and mode.attr == "wb"
         ck.ob("R15.5", "create_toml writes the complete model_dump() (serializers on, nothing excluded)", okw,
-              (mod.relpath, ct.node.lineno, 0), "create_toml", ast.unparse(dumps[0])[:100] if dumps else "no dump call")
-        opens = [n for n in ast.walk(ct.node) if isinstance(n, ast.Call) and census.dotted(n.func) == "open"]
-        ck.ob("R15.5", "create_toml opens the file for binary writing", any(len(o.args) > 1 and isinstance(o.args[1],
-              ast.Constant) and o.args[1].value == "wb" for o in opens), (mod.relpath, ct.node.lineno, 0), "create_toml", "")
-        rets = [n for n in ast.walk(cf.node) if isinstance(n, ast.Return)]
-        okr = len(rets) == 1 and isinstance(rets[0].value, ast.Call) and ast.unparse(rets[0].value.func) == "NssConfig" \
-            and not rets[0].value.args and len(rets[0].value.keywords) == 1 and rets[0].value.keywords[0].arg is None
-        loads = [n for n in ast.walk(cf.node) if isinstance(n, ast.Call) and census.dotted(n.func).endswith(".load")]
+              dumps[0].node if dumps else (mod.relpath, ct.node.lineno, 0), "create_toml",
+              g.show(dumps[0].node, 3) if dumps else f"{len(dumps)} dump call(s)")
+        ck.ob("R15.5", "create_toml opens the named file for binary writing", okb,
+              dumps[0].node if dumps else (mod.relpath, ct.node.lineno, 0), "create_toml", "")
+        ra = arg_nodes(cf)
+        rr = I.run(I.func_node(cf), [ra[a_.arg] for a_ in cf.node.args.args])
+        v = rr.value
+        loads = [e for e in rr.effects if e.kind == "io" and (e.data.get("callee") or "").endswith(".load")]
+        okr = False
+        if v is not None and v.op == "Obj" and v.attr[0] == "NssConfig" and len(loads) == 1:
+            cpos, ckw = (v.extra or {}).get("ctor_args", ((), {}))
+            star = ckw.get("**")
+            okr = not cpos and set(ckw) == {"**"} and star is not None and I.res(star, rr.st) is loads[0].node
         ck.ob("R15.5", "config_from_toml rebuilds NssConfig(**loaded) from the whole parsed file (validators on)",
-              okr and len(loads) == 1, (mod.relpath, cf.node.lineno, 0), "config_from_toml",
-              ast.unparse(rets[0])[:100] if rets else "")
+              okr, v if v is not None else (mod.relpath, cf.node.lineno, 0), "config_from_toml",
+              g.show(v, 2) if v is not None else "no value")
         for path in (("simulation", "spectrum"), ("simulation", "cloud_model")):
             fs = sch.field_at(path) or []
             for f in fs:
